@@ -535,7 +535,7 @@ func c02Scenarios(tier string) []*SeqScenario {
 func c03Scenarios(prop, tier string) []*CrashScenario {
 	alpha := putOps([]int{0, 1, 4}, []int{1, 2})
 	alpha = append(alpha, removeOps([]int{0, 1})...)
-	alpha = append(alpha, Op{Kind: OpFlush}, Op{Kind: OpIdxGC, B: true}, Op{Kind: OpPriGC, A: 0}, Op{Kind: OpPriGC, A: 50}, Op{Kind: OpReopen, A: 0})
+	alpha = append(alpha, Op{Kind: OpFlush}, Op{Kind: OpIdxGC, B: true}, Op{Kind: OpIdxGC, B: false}, Op{Kind: OpPriGC, A: 0}, Op{Kind: OpPriGC, A: 50}, Op{Kind: OpReopen, A: 0})
 	depth := 3
 	cfgs := []Config{
 		cfg("mh", false, 8, 1, 1),
@@ -547,7 +547,7 @@ func c03Scenarios(prop, tier string) []*CrashScenario {
 		pres = gcPreambles()
 		depth = 4
 		cfgs = append(cfgs, cfg("mh", false, 8, bigFile, bigFile), cfg("mh", false, 12, 48, 1), cfg("mh", true, 8, 48, 48))
-		alpha = append(alpha, Op{Kind: OpIdxGC, B: false}, Op{Kind: OpReopen, A: 1})
+		alpha = append(alpha, Op{Kind: OpReopen, A: 1})
 	}
 	var oracles []string
 	if prop == "C07" {
@@ -600,6 +600,10 @@ func reclaimFinal(removeAll bool, threshold int) func(w *World, c *Collector) *V
 func reclaimFinalMode(removeAll, partial bool, threshold int) func(w *World, c *Collector) *Violation {
 	return func(w *World, c *Collector) *Violation {
 		mp := w.mh()
+		// locations freed by the premise step itself (the collector only
+		// re-examines files that new freelist entries touch)
+		beforePremise := w.locateAll()
+		freedNow := map[uint64]bool{}
 		// 1. establish the premise: supersede every live record, flush
 		for ki := range w.Keys {
 			val, present := w.Model[string(w.Keys[ki].Digest)]
@@ -626,6 +630,12 @@ func reclaimFinalMode(removeAll, partial bool, threshold int) func(w *World, c *
 		if v := w.Step(Op{Kind: OpFlush}); v != nil {
 			return v
 		}
+		afterPremise := w.locateAll()
+		for d, b := range beforePremise {
+			if a, ok := afterPremise[d]; !ok || a != b {
+				freedNow[uint64(b.Offset)] = true
+			}
+		}
 		// 2. which non-current files hold nothing live?
 		view := loadFsck(w.FS, w.Cfg)
 		live := map[uint64]bool{}
@@ -645,10 +655,14 @@ func reclaimFinalMode(removeAll, partial bool, threshold int) func(w *World, c *
 				if !ok {
 					break
 				}
-				hasLive := false
+				hasLive, touched := false, false
 				var busy, free int64
 				for _, r := range recs {
-					if live[uint64(n)*uint64(view.ph.MaxFileSize)+uint64(r.Pos)] {
+					abs := uint64(n)*uint64(view.ph.MaxFileSize) + uint64(r.Pos)
+					if freedNow[abs] {
+						touched = true
+					}
+					if live[abs] {
 						hasLive = true
 						busy += int64(r.Size)
 					} else {
@@ -657,7 +671,10 @@ func reclaimFinalMode(removeAll, partial bool, threshold int) func(w *World, c *
 				}
 				if !hasLive {
 					prem = append(prem, premise{fmt.Sprintf("%s.%d", dataPath, n), n == view.ph.FirstFile, len(recs)})
-				} else if partial && 100*free >= int64(threshold)*(free+busy) {
+				} else if partial && touched && 100*free >= int64(threshold)*(free+busy) {
+					// (only files the premise step itself freed a record in:
+					// those are the ones the next cycle re-examines, with the
+					// same accounting as here)
 					// low-use: must be drained by relocation and then released
 					prem = append(prem, premise{fmt.Sprintf("%s.%d", dataPath, n), false, len(recs)})
 					c.count("reclaim.low_use_premise_files", 1)
@@ -1253,6 +1270,10 @@ func recoverC10(sc *CrashScenario, img vos.Image, info crashInfo, c *Collector) 
 	if mv := c10Check(fw, want); mv != nil {
 		mv.Oracle = "crash"
 		mv.Detail = "after resuming the interrupted upgrade: " + mv.Detail
+		if sc.Dropped {
+			// the legacy store had index entries whose primary data is gone
+			mv.Trigger = "upgrade-drops-entries+crash-in-upgrade"
+		}
 		return mv
 	}
 	for _, op := range []Op{P(2, 3), R(0), opF, {Kind: OpPriGC, A: 50}, {Kind: OpIdxGC, B: true}, {Kind: OpReads}, {Kind: OpReopen, A: 1}, {Kind: OpReads}} {
@@ -1276,7 +1297,7 @@ func c10CrashScenarios(tier string) []*CrashScenario {
 	for hi, hist := range legacyHistories(tier)[:3] {
 		for _, sz := range sizes {
 			for _, cut := range []int{0, 3} {
-				if tier == "quick" && cut != 0 && hi != 1 {
+				if tier == "quick" && cut != 0 && hi == 2 {
 					continue
 				}
 				ls, err := buildLegacy(8, hist, cut, true)
@@ -1284,7 +1305,7 @@ func c10CrashScenarios(tier string) []*CrashScenario {
 					continue
 				}
 				sc := &CrashScenario{Prop: "C10", Name: fmt.Sprintf("c10x/h%d/%d-%d/cut%d", hi, sz[0], sz[1], cut), Cfg: cfg("mh", false, 8, sz[0], sz[1]),
-					Depth: 0, Recover: recoverC10, Oracles: []string{"crash"}, Base: &ls.img, Want: ls.model, BaseKeys: ls.keys, BaseProbes: ls.probe}
+					Depth: 0, Recover: recoverC10, Oracles: []string{"crash"}, Base: &ls.img, Want: ls.model, BaseKeys: ls.keys, BaseProbes: ls.probe, Dropped: len(ls.lost) > 0}
 				scs = append(scs, sc)
 			}
 		}
